@@ -264,6 +264,12 @@ func cmdCheck(args []string) {
 	assume("go/ssa (x/tools v0.50.0) is a faithful IR of the compiled code; SMT solvers' unsat answers are correct")
 	assume("64-bit platform (int = 64 bits); distinct allocations never overlap; a slice header passed by a caller is valid")
 	assume("concurrency: every obligation is about a single call executing alone")
+	if e.esc != nil && *prop == "C17" {
+		assume("allocation sites are taken from the Go compiler's escape analysis (`go build -tags=verif -gcflags=-m` over the working tree, run by this check): " + e.esc.err + "; a zero-size object is not an allocation; a call contributes through its callee's noalloc clause only; an append allocates iff the capacity does not suffice; map updates, go statements and channel creation always allocate")
+	}
+	if len(e.overlaySrc) > 0 {
+		assume("grammar actions: the arms of `switch yynt` in yyParserImpl.Parse (grammar.go) were copied mechanically, on this run, into functions yyAct_<lhs>_<k> (govc/yyextract.go: the yyDollar slice statement dropped, `return X` rewritten to `return yyVAL, X, true`); the LALR driver (which production is reduced when, the value stack, error recovery) is NOT covered")
+	}
 	sort.Strings(assumptions)
 	if len(samples) == 0 {
 		samples = append(samples, map[string]any{"note": "no ensures/slice obligations sampled"})
